@@ -37,7 +37,10 @@ RULE = ('hist: hypothesis-generated histories: a pool of 2-4 documents (shared T
         'for, if, head(), !, inline-function parameters, map/array call, lookup and map:get/array:get as operands of '
         'date/time subtraction under an implicit timezone; named references to context-dependent functions of arity 0 '
         '(name#0, string#0, root#0, local-name#0, data#0, position#0, last#0, ...) called dynamically by a reused '
-        'Selector/token on different documents and context items.')
+        'Selector/token on different documents and context items. '
+        'round 5: literal map / array constructors whose entries depend on $variables or on the document, consumed '
+        'directly by ?*, ?key, ?(expr), unary lookup in predicates, call syntax, map:for-each, map:keys, map:get, '
+        'array:flatten, array:get and !, re-evaluated by the same Selector/token with other variables and documents.')
 ASSUMPTIONS = [
     'repeatability compares elementpath with itself (pooled selector/token vs freshly parsed expression on freshly '
     'built inputs): the property names this relation; both sides failing in the same way is not a C05 discrepancy',
@@ -60,7 +63,8 @@ FLOORS = {
     'step:poly-variable': (0.05, 'step'),
     'step:indirect-date-time-operand': (0.04, 'step'),
     'step:indirect-date-time-operand-with-tz': (0.45, 'step:indirect-date-time-operand'),
-    'step:context-function-reference': (0.04, 'step'),
+    'step:context-function-reference': (0.03, 'step'),
+    'step:literal-constructor-consumed': (0.06, 'step'),
     'step:entry-points-compared': (0.20, 'step'),
     'step:entry-points-compared-with-tz': (0.40, 'step:entry-points-compared'),
     'step:function-item': (0.06, 'step'),
@@ -201,6 +205,34 @@ TEMPLATES = [
     ('ctx-generate-id', 3, 'let $f := path#0, $g := has-children#0 return ($f(), $g())'),
     ('ctx-apply', 31, 'apply(name#0, [])'),
     ('ctx-function-lookup', 3, "function-lookup(xs:QName('fn:name'), 0)()"),
+    # literal map / array constructors whose entries depend on $variables or on the document, consumed directly
+    # by lookups, map:for-each, map:keys, array:flatten, '!' (the same parsed token is evaluated again and again)
+    ('lit-map-star', 31, "map{'n': count(//*), 'v': $n}?*"),
+    ('lit-map-star-nodes', 31, "map{'first': (//*)[1], 'last': (//*)[last()], 's': $s}?*"),
+    ('lit-map-star-sum', 31, "sum(map{'a': count(//*), 'b': count(//@*), 'c': $n}?*)"),
+    ('lit-map-key', 31, "map{'n': count(//node()), 'v': $s}?n"),
+    ('lit-map-paren', 31, "map{'n': count(//*), 'v': ($n, $s), 1: //*[1]}?('v', 'n', 1)"),
+    ('lit-map-varkey', 31, "map{$s: //*[1], $n: count(//*)}?*"),
+    ('lit-map-call', 31, "map{'n': count(//*), 'v': $seq}('v')"),
+    ('lit-map-unary-pred', 31, "(map{'k': $n, 'c': count(//*)}, map{'k': count(//*), 'c': $n})[?k = $n]?c"),
+    ('lit-map-bang-unary', 31, "map{'d': count(//*), 'v': $s} ! (?d, ?v, ?*)"),
+    ('lit-map-for-each', 31, "map:for-each(map{'n': count(//*), 'v': $n}, function($k, $v){($k, $v)})"),
+    ('lit-map-keys', 31, "map:keys(map{$s: 1, string(count(//*)): 2, $n: 3})"),
+    ('lit-map-size-get', 31, "(map:size(map{$s: 1, 'x': //*}), map:get(map{'x': //*, 'y': $seq}, 'x'), map:contains(map{$n: 1}, 2))"),
+    ('lit-map-nested', 31, "map{'in': map{'n': count(//*), 'v': $n}}?in?*"),
+    ('lit-map-in-for', 31, "for $i in (1, 2) return map{'i': $i, 'n': $n + $i, 'c': count(//*)}?*"),
+    ('lit-array-star', 31, '[count(//*), $n, $s]?*'),
+    ('lit-array-index', 31, '[count(//*), $seq, //*[1]]?2'),
+    ('lit-array-paren', 31, '[count(//*), $n, (//*)[last()]]?(3, 1)'),
+    ('lit-array-call', 31, '[$s, count(//*)](2)'),
+    ('lit-array-curly-star', 31, 'array{//*, $seq}?*'),
+    ('lit-array-flatten', 31, 'array:flatten([count(//*), [$n, [$s, //*[1]]]])'),
+    ('lit-array-bang', 31, '[count(//*), $n] ! ?*'),
+    ('lit-array-unary-pred', 31, '([$n, count(//*)], [count(//*), $n])[?1 = $n]?2'),
+    ('lit-array-size-get', 31, '(array:size(array{//*}), array:get([$s, count(//*)], 2), array:head([//*[1], $n]))'),
+    ('lit-array-for-each', 31, 'array:for-each([count(//*), $n], function($x){$x + 1})?*'),
+    ('lit-array-of-maps', 31, "[map{'n': count(//*)}, map{'n': $n}]?*?n"),
+    ('lit-map-of-arrays', 31, "map{'a': [count(//*), $n], 'b': [$s]}?*?*"),
     # one Selector / parser evaluated with variable maps of different SHAPES ($v: item, sequence, other type, node;
     # $w and $zz present in some maps only) (round-3 hardening)
     ('poly-count', 2, 'count($v) + count(//b)'),
@@ -699,6 +731,8 @@ def judge_hist(case, rec: Recorder | None = None):
                     rec.cls('step:indirect-date-time-operand-with-tz')
             elif name.startswith('ctx-'):
                 rec.cls('step:context-function-reference')
+            elif name.startswith('lit-'):
+                rec.cls('step:literal-constructor-consumed')
             if doc.backend == 'lxml':
                 rec.cls('step:lxml')
             if mode in ('token', 'tselect'):
@@ -1086,6 +1120,7 @@ _TALL = [t[0] for t in TEMPLATES]
 _DT_T = [t[0] for t in TEMPLATES if t[0].startswith(('dt-', 'time-', 'date-', 'tz-', 'implicit-'))]
 _DTI_T = [t[0] for t in TEMPLATES if t[0].startswith('dti-')]
 _CTX_T = [t[0] for t in TEMPLATES if t[0].startswith('ctx-')]
+_LIT_T = [t[0] for t in TEMPLATES if t[0].startswith('lit-')]
 _FN_T = [t[0] for t in TEMPLATES if t[1] >= 3]
 _FNITEM_T = [t[0] for t in TEMPLATES if t[0].startswith('fn-')]
 _SER_T = [t[0] for t in TEMPLATES if t[0].startswith(('ser-', 'parse-', 'json-', 'xml-to-json'))]
@@ -1102,8 +1137,8 @@ def decode_hist(parts):
     nex = 3 + s.n(4)
     exprs = []
     for _ in range(nex):
-        c = s.n(19)
-        name = (s.pick(_DTI_T) if c >= 17 else s.pick(_CTX_T) if c >= 15 else s.pick(_DT_T) if c < 3 else s.pick(_FNITEM_T) if c < 5 else s.pick(_SER_T) if c < 8 else
+        c = s.n(22)
+        name = (s.pick(_LIT_T) if c >= 19 else s.pick(_DTI_T) if c >= 17 else s.pick(_CTX_T) if c >= 15 else s.pick(_DT_T) if c < 3 else s.pick(_FNITEM_T) if c < 5 else s.pick(_SER_T) if c < 8 else
                 s.pick(_REBIND_T) if c < 9 else s.pick(_FN_T) if c < 10 else s.pick(_POLY_T) if c < 13 else s.pick(_TALL))
         exprs.append([name, s.pick([2, 3, 31, 31])])
     vars_ = []
